@@ -265,6 +265,16 @@ def step (d : DSt) (j : Json) : DSt × List String :=
         let n' := (w'.nodes[i]?).getD n
         let c := ((peerOf n' peer).map (·.connected)).getD false
         ({ d with st := { st with w := w' } }, [s!"conn connected={c} queue={n'.queues.any (fun q => q.peer == peer)}"])
+  | "chunk" =>
+    let cfg := { baseCfg with maxMsg := jNat j "maxmsg" }
+    let txs : List NetTx := (jArr j "runs").flatMap (fun r => match r with
+      | .arr a => match a.toList.filterMap (fun x => x.getNat?.toOption) with
+        | [n, dsz, psz] => List.replicate n { tx := some { ref := 0, clock := 0, prevs := [], pal := [], payloadHash := 0, sigOK := true, size := dsz },
+                                              payload := if psz == 0 then none else some ⟨"", psz, 0⟩ }
+        | _ => []
+      | _ => [])
+    let lens := (chunkTransactionList cfg txs).map (fun c => toString c.length)
+    (d, [s!"chunk lens=[{String.intercalate "," lens}] oversize=0"])
   | "restart" =>
     let i := jNat j "n"
     let w' := st.w.step st.cfg (.restart i)
